@@ -1,6 +1,6 @@
 /-
   C25 — The classic VI driver resumes after a crash with identical results.
-  Property theorems only; model: Model/CrashCl.lean (+ Model/CrashFS.lean); lemmas: Lemmas/CrashCl.lean.
+  Property theorems only; model: Model/CrashCl.lean (+ Model/CrashFS.lean); lemmas: Lemmas/CrashCl.lean, Lemmas/CrashClLatest.lean.
   Obligations are listed in harness/props/c25.py.
 
   Reading guide.  `S` = (sample list, mean); `sys.step j` = global iteration j; `sAfter sys s0 total` = result of the
@@ -11,6 +11,7 @@
   runs killed anywhere.  Protocol `.repaired` = fixes/C25_atomic_marker_and_files.diff; `.asFound` = /repo.
 -/
 import NiftyVerif.Lemmas.CrashCl
+import NiftyVerif.Lemmas.CrashClLatest
 
 namespace NiftyVerif.C25
 open NiftyVerif.CrashFS NiftyVerif.CrashCl
@@ -105,10 +106,46 @@ theorem asFound_latest_in_place : ∃ k, natCrash .asFound .latest 2 k .marker =
     Full statement that does NOT hold (kept visible):
       theorem crash_safe_latest : Reach sys .repaired .latest total s0 fs →
           (run sys .repaired .latest true total s0 fs).2 = .ok (sAfter sys s0 total)
-    `latest_window_witness` is the `decide`d counter-example; `latest_outside_window_test` is a *test* (one instance,
-    all crash points outside the window), not a theorem. -/
+    `latest_window_witness` is the `decide`d counter-example; what holds outside the window is `crash_safe_latest_partial`
+    (below). -/
 theorem latest_window_witness : ∃ k, natCrash .repaired .latest 2 k .marker = some [48] ∧
     natCrash .repaired .latest 2 k (.mean .latest) = some [2, 254] ∧
     resumeOutcome .repaired .latest 2 k ≠ some 2 := ⟨70, by decide⟩
+
+/-! ### strategy `latest`, repaired protocol: what IS proved (`crash_safe_latest_partial`)
+
+    `GoodL`: marker absent, or marker = i and latest.* / histories / random state complete and from iteration i.
+    `pend false pre`: scanning the operations `pre`, has a latest.<k|mean>.pickle file been moved into place since the marker
+    was last moved?  The window of the known finding is exactly `pend = true` while a marker exists. -/
+
+/-- from a `GoodL` directory `resume=True` never raises and returns the uninterrupted (samples, mean) -/
+theorem resume_correct_latest (sys : Sys S) (hl : Lawful sys) (s0 : S) (total : Nat) (fs : FS Path)
+    (hg : GoodL sys s0 total fs) :
+    (run sys .repaired .latest true total s0 fs).2 = .ok (sAfter sys s0 total) :=
+  (runL_good hl s0 total true hg (Or.inl rfl)).1
+
+/-- every crash point outside the window (flag down, or no marker yet) of a run started on a `GoodL` directory leaves a
+    `GoodL` directory -/
+theorem latest_outside_window_good (sys : Sys S) (hl : Lawful sys) (s0 : S) (total : Nat) (fs : FS Path)
+    (hg : GoodL sys s0 total fs) (pre : List (Op Path))
+    (hp : pre <+: (run sys .repaired .latest true total s0 fs).1)
+    (hout : pend false pre = false ∨ execs fs pre .marker = none) : GoodL sys s0 total (execs fs pre) := by
+  rcases hout with h | h
+  · exact (runL_good hl s0 total true hg (Or.inl rfl)).2 pre hp h
+  · exact Or.inl h
+
+/-- **crash_safe_latest_partial**: any number of runs, each killed at any byte-granular crash point OUTSIDE the window
+    (`ReachL`), then `resume=True`: the uninterrupted result.  (The excluded region is the known finding
+    C25-latest_not_staged; `latest_window_witness` is a point inside it.) -/
+theorem crash_safe_latest_partial (sys : Sys S) (hl : Lawful sys) (s0 : S) (total : Nat) (fs : FS Path)
+    (hr : ReachL sys total s0 fs) :
+    (run sys .repaired .latest true total s0 fs).2 = .ok (sAfter sys s0 total) :=
+  (runL_good hl s0 total true (reachL_good hl s0 total hr) (Or.inl rfl)).1
+
+/-- non-vacuity: a kill in the middle of the temp file of sample 0 of iteration 1 is outside the window … -/
+example : ReachL (natSys 2) 3 0 (natCrash .repaired .latest 3 48) := ReachL.first false 48 (Or.inl (by decide))
+/-- … and the witness point of the known finding is inside it (flag up, marker present) -/
+example : pend false ((natRun .repaired .latest false 2 FS.empty).1.take 70) = true ∧
+    natCrash .repaired .latest 2 70 .marker = some [48] := by decide
 
 end NiftyVerif.C25
